@@ -2,164 +2,17 @@
 //! runtime.  `sched c20` explores the auto-reloader (source-swapped copy of the real source).
 #![allow(clippy::type_complexity)]
 use serde_json::{json, Value as J};
-use shuttle::scheduler::{Schedule, Scheduler, Task, TaskId};
 use std::collections::{BTreeMap, BTreeSet};
 use std::sync::atomic::{AtomicU64, AtomicUsize, Ordering};
 use std::sync::{Arc as StdArc, Mutex as StdMutex};
 use std::time::Instant;
 
+mod dfs;
+use dfs::{explore, replay, ExploreResult};
+
 #[allow(dead_code, unexpected_cfgs, missing_docs, clippy::all)]
 mod autoreload {
     include!(concat!(env!("OUT_DIR"), "/autoreload_swapped.rs"));
-}
-
-// ---------------------------------------------------------------------------------------------
-// the explorer
-
-#[derive(Clone, Debug)]
-struct Level {
-    /// enabled task ids in canonical order: the running task first if still enabled, then ascending
-    options: Vec<usize>,
-    chosen: usize,
-    /// preemptions spent before this point
-    cost_before: usize,
-    /// switching away from options[0] costs a preemption
-    current_runnable: bool,
-}
-
-#[derive(Default)]
-struct Shared {
-    levels: Vec<Level>,
-    schedules: u64,
-    max_depth: usize,
-    exhausted: bool,
-    divergence: Option<String>,
-}
-
-struct BoundedDfs {
-    bound: usize,
-    step: usize,
-    first: bool,
-    shared: StdArc<StdMutex<Shared>>,
-}
-
-impl BoundedDfs {
-    fn new(bound: usize, shared: StdArc<StdMutex<Shared>>) -> Self {
-        BoundedDfs { bound, step: 0, first: true, shared }
-    }
-}
-
-fn cost_of(l: &Level, idx: usize) -> usize {
-    l.cost_before + usize::from(l.current_runnable && idx > 0)
-}
-
-impl Scheduler for BoundedDfs {
-    fn new_execution(&mut self) -> Option<Schedule> {
-        let mut sh = self.shared.lock().unwrap();
-        if self.first {
-            self.first = false;
-        } else {
-            // backtrack to the deepest point with an untried alternative inside the bound
-            loop {
-                let Some(last) = sh.levels.last_mut() else {
-                    sh.exhausted = true;
-                    return None;
-                };
-                let mut next = last.chosen + 1;
-                let mut found = false;
-                while next < last.options.len() {
-                    if cost_of(last, next) <= self.bound {
-                        found = true;
-                        break;
-                    }
-                    next += 1;
-                }
-                if found {
-                    last.chosen = next;
-                    break;
-                }
-                sh.levels.pop();
-            }
-        }
-        self.step = 0;
-        sh.schedules += 1;
-        Some(Schedule::new(0))
-    }
-
-    fn next_task(&mut self, runnable: &[&Task], current: Option<TaskId>, is_yielding: bool) -> Option<TaskId> {
-        let mut ids: Vec<usize> = runnable.iter().map(|t| usize::from(t.id())).collect();
-        ids.sort();
-        let cur = current.map(usize::from).filter(|c| ids.contains(c));
-        let mut options = vec![];
-        if let Some(c) = cur {
-            options.push(c);
-        }
-        options.extend(ids.iter().copied().filter(|i| Some(*i) != cur));
-        let current_runnable = cur.is_some() && !is_yielding;
-        let mut sh = self.shared.lock().unwrap();
-        let step = self.step;
-        if step < sh.levels.len() {
-            // replaying the prefix: any difference means the harness does not own its nondeterminism
-            if sh.levels[step].options != options {
-                sh.divergence = Some(format!("step {}: recorded options {:?} but now {:?}", step, sh.levels[step].options, options));
-                return None;
-            }
-        } else {
-            let cost_before = sh.levels.last().map_or(0, |l| cost_of(l, l.chosen));
-            sh.levels.push(Level { options: options.clone(), chosen: 0, cost_before, current_runnable });
-        }
-        let choice = sh.levels[step].options[sh.levels[step].chosen];
-        self.step += 1;
-        sh.max_depth = sh.max_depth.max(self.step);
-        Some(TaskId::from(choice))
-    }
-
-    fn next_u64(&mut self) -> u64 {
-        0
-    }
-}
-
-struct ExploreResult {
-    schedules: u64,
-    max_depth: usize,
-    exhausted: bool,
-    failure: Option<(String, Vec<usize>)>,
-    divergence: Option<String>,
-}
-
-fn shuttle_config() -> shuttle::Config {
-    let mut c = shuttle::Config::new();
-    // wall cap per (configuration, bound); a capped exploration is reported as not exhausted
-    c.max_time = Some(std::time::Duration::from_secs(std::env::var("VERIF_SCHED_CAP_S").ok().and_then(|s| s.parse().ok()).unwrap_or(900)));
-    c.silence_warnings = true;
-    c.failure_persistence = shuttle::FailurePersistence::None;
-    c.stack_size = 0x40000;
-    c
-}
-
-fn explore<F: Fn() + Send + Sync + 'static>(bound: usize, body: F) -> ExploreResult {
-    let shared: StdArc<StdMutex<Shared>> = Default::default();
-    let sched = BoundedDfs::new(bound, shared.clone());
-    let runner = shuttle::Runner::new(sched, shuttle_config());
-    let r = std::panic::catch_unwind(std::panic::AssertUnwindSafe(|| runner.run(body)));
-    let sh = shared.lock().unwrap();
-    let failure = match r {
-        Ok(_) => None,
-        Err(p) => {
-            let msg = p.downcast_ref::<String>().cloned().or_else(|| p.downcast_ref::<&str>().map(|s| s.to_string())).unwrap_or_else(|| "panic".into());
-            Some((msg, sh.levels.iter().map(|l| l.options[l.chosen]).collect()))
-        }
-    };
-    ExploreResult { schedules: sh.schedules, max_depth: sh.max_depth, exhausted: sh.exhausted, failure, divergence: sh.divergence.clone() }
-}
-
-fn replay<F: Fn() + Send + Sync + 'static>(schedule: &[usize], body: F) -> Result<(), String> {
-    let sched = shuttle::scheduler::ReplayScheduler::new_from_schedule(Schedule::new_from_task_ids(0, schedule.iter().map(|i| TaskId::from(*i))));
-    let runner = shuttle::Runner::new(sched, shuttle_config());
-    match std::panic::catch_unwind(std::panic::AssertUnwindSafe(|| runner.run(body))) {
-        Ok(_) => Ok(()),
-        Err(p) => Err(p.downcast_ref::<String>().cloned().or_else(|| p.downcast_ref::<&str>().map(|s| s.to_string())).unwrap_or_else(|| "panic".into())),
-    }
 }
 
 // ---------------------------------------------------------------------------------------------
